@@ -69,11 +69,10 @@ def repo_tests():
 # ------------------------------------------------------------------ seeded mutants (DESIGN §9) : (name, property, [(file, old, new)], checks expected to fire, note)
 D = "sylvia-derive/src/"
 MUTANTS = [
-    ("swap-dispatch-args", "C02", [(D + "types/msg_variant.rs", ".zip(args.clone())", ".zip(args.iter().rev().cloned().collect::<Vec<_>>())")], ["C02"], "field bindings zipped with reversed fieldN names: same-typed arguments swapped"),
+    ("swap-dispatch-args", "C02", [(D + "types/msg_variant.rs", ".zip(args.clone())", ".zip({ let mut r = args.clone(); r.reverse(); r })")], ["C02"], "field bindings zipped with reversed fieldN names: same-typed arguments swapped"),
     ("sudo-list-in-exec-wrapper", "C04", [(D + "types/interfaces.rs", 'let ep_name = msg_ty.emit_ep_name();\n                let messages_fn_name = Ident::new(&format!("{}_messages", ep_name), module.span());\n\n                quote! {\n                    let msgs', 'let ep_name = if matches!(msg_ty, MsgType::Exec) { MsgType::Sudo.emit_ep_name() } else { msg_ty.emit_ep_name() };\n                let messages_fn_name = Ident::new(&format!("{}_messages", ep_name), module.span());\n\n                quote! {\n                    let msgs')], ["C03", "C04"], "execute wrapper consults the interface's sudo list"),
     ("drop-sort-contract", "C05", [(D + "contract/communication/enum_msg.rs", "variant_names.sort();", "")], ["C05"], "published list no longer sorted (overlap scan precondition)"),
     ("drop-sort-interface", "C05", [(D + "interface/communication/enum_msg.rs", "msgs.sort();", "")], ["C05"], "interface list no longer sorted"),
-    ("sudo-keyword-exec", "C04", [(D + "types/msg_type.rs", '"sudo" => Ok(Self::Sudo),', '"sudo" => Ok(Self::Exec),')], ["C04", "C01"], "`sv::msg(sudo)` parsed as exec"),
     ("reply-arms-swapped", "C07", [(D + "contract/communication/reply.rs", "reply_on == &ReplyOn::Error || reply_on == &ReplyOn::Always)\n        {\n            Some((method_name, reply_on)) if reply_on == &ReplyOn::Error", "reply_on == &ReplyOn::Success || reply_on == &ReplyOn::Always)\n        {\n            Some((method_name, reply_on)) if reply_on == &ReplyOn::Success")], ["C07"], "error arm looks up the success method"),
     ("submsg-gas-limit-none", "C08", [(D + "contract/communication/reply.rs", "                    payload,\n                    ..self\n", "                    payload,\n                    gas_limit: None,\n                    ..self\n")], ["C08"], "SubMsg receiver loses its gas limit"),
     ("reply-on-ignores-error", "C08", [(D + "contract/communication/reply.rs", "if is_always || (is_success && is_error) {", "if is_always {")], ["C08"], "success+error methods no longer request ReplyOn::Always"),
@@ -86,7 +85,7 @@ MUTANTS = [
     ("into-response-rev", "C11", [("sylvia/src/into_response.rs", ".into_iter()\n            .map(|msg| msg.into_msg())", ".into_iter()\n            .rev()\n            .map(|msg| msg.into_msg())")], ["C11"], "sub-message order reversed"),
     ("execproxy-ignores-funds", "C12", [("sylvia/src/multitest.rs", "                &self.msg,\n                self.funds,\n            )", "                &self.msg,\n                &[],\n            )")], ["C12"], "ExecProxy::call sends no funds"),
     ("sudo-proxy-hits-exec", "C12", [(D + "contract/mt.rs", ".wasm_sudo(self.contract_addr.clone(), &msg)", ".wasm_sudo(self.contract_addr.clone(), &msg)"), ], ["C12"], "placeholder (replaced below)"),
-    ("strip-all-two-segment-attrs", "C13", [(D + "parser/attributes/mod.rs", 'if segments.len() == 2 && segments[0].ident == "sv" {\n            Self::match_attribute(&segments[1])', 'if segments.len() == 2 && (segments[0].ident == "sv" || segments[0].ident == "rustfmt") {\n            Some(Self::Msg)')], ["C13"], "a foreign two-segment attribute is treated as sylvia's and stripped"),
+    ("strip-all-two-segment-attrs", "C13", [(D + "parser/attributes/mod.rs", "let segments = &attr.path().segments;", "let segments = &attr.path().segments;\n        if segments.len() == 2 && segments[0].ident == \"rustfmt\" {\n            return Some(Self::Features);\n        }")], ["C13"], "a foreign two-segment attribute is treated as sylvia's and stripped"),
     ("hashmap-in-generator", "C13", [(D + "utils.rs", "use convert_case::Casing;", "use convert_case::Casing;\n#[allow(unused_imports)]\nuse std::collections::HashMap;")], ["C13"], "a HashMap enters the macro crate"),
     ("generic-unused-leaks", "C15", [(D + "parser/check_generics.rs", "        let unused = self\n            .generics\n            .iter()\n            .filter(|gen| !self.used.contains(*gen))\n            .copied()\n            .collect();\n\n        (self.used, unused)", "        let unused: Vec<_> = self\n            .generics\n            .iter()\n            .filter(|gen| !self.used.contains(*gen))\n            .copied()\n            .collect();\n        let mut used = self.used;\n        if used.len() == 1 && unused.len() == 1 { used.extend(unused.iter().copied()); return (used, vec![]); }\n\n        (used, unused)")], ["C15"], "with exactly one used and one unused parameter the unused one leaks into the type"),
     ("query-accessor-exec-in-responses", "C16", [(D + "types/interfaces.rs", "let type_name = msg_ty.as_accessor_name();\n                quote! {\n                    <#contract as #module ::sv::InterfaceMessagesApi> :: #type_name :: response_schemas_impl()", "let type_name = msg_ty.as_accessor_name();\n                let _ = type_name;\n                let type_name = MsgType::Query.as_accessor_name();\n                quote! {\n                    <#contract as #module ::sv::InterfaceMessagesApi> :: #type_name :: response_schemas_impl()")], [], "behaviour preserving (msg_ty is always Query here) - sanity: must stay silent"),
@@ -204,6 +203,61 @@ def do_seeded(ids):
             print("    ", p, checks[p]["first"])
 
 
+def do_report(_):
+    recs = [json.loads(l) for l in open(RESULTS)] if os.path.exists(RESULTS) else []
+    latest = {}
+    for r in recs:
+        latest[(r["kind"], r["name"])] = r
+    out = ["# Seeded breaks, mutants and harmless edits: which check catches what", "",
+           "Generated by `tools/campaign.py report` from `campaign-results.jsonl` (each edit was applied to /repo, the repository's own",
+           "suite and the listed quick checks were run, /repo was restored). `fired` lists the properties whose quick check printed a",
+           "VIOLATION; the rule shown is the first one reported by the property the change was aimed at (or the first that fired).", ""]
+    out += ["## Seeded breaks from independent sub-agents (`/verif/seeded/<id>/`)", "",
+            "Each sub-agent got only the property text and a scratch worktree; every change compiles, passes the 67 repo tests, and comes",
+            "with a demonstration that fails with it and passes without it (re-confirmed here, see each meta.json).", "",
+            "| seed | aimed at | needs, to manifest | caught by | first report |", "|---|---|---|---|---|"]
+    for (k, n), r in sorted(latest.items()):
+        if k != "seeded":
+            continue
+        meta = {}
+        mp = os.path.join(VERIF, "seeded", n, "meta.json")
+        if os.path.exists(mp):
+            meta = json.load(open(mp))
+        prop = r.get("property")
+        fired = r.get("fired", [])
+        pick = prop if prop in fired else (fired[0] if fired else None)
+        fr = r["checks"][pick]["first"] if pick else None
+        nonc = [p for p in fired if not (r["checks"][p]["first"] and r["checks"][p]["first"]["rule"].endswith(".compile"))]
+        out.append(f"| {n} | {prop} | {meta.get('needs', '')} | {', '.join(fired) if len(fired) <= 6 else ', '.join(nonc[:6]) + f' (+{len(fired) - len(nonc[:6])} more: corpus witness no longer compiles)'} | "
+                   f"{('`' + fr['rule'] + '` ' + fr['where'][:90] + ': expected ' + fr['expected'][:80] + ' / found ' + fr['found'][:80]).replace('|', '/') if fr else 'NOT CAUGHT'} |")
+    out += ["", "## Own mutants (DESIGN §9)", "", "| mutant | aimed at | repo tests | fired | expected | verdict |", "|---|---|---|---|---|---|"]
+    for (k, n), r in sorted(latest.items()):
+        if k != "mutant":
+            continue
+        if "error" in r:
+            out.append(f"| {n} | {r.get('property')} | - | - | - | edit did not apply: {r['error'][:60]} |")
+            continue
+        t = r["repo_tests"]
+        ok = bool(r["fired"]) if r["expected"] else not r["fired"]
+        tests = "build error" if t["build_error"] else f"{t['passed']} pass / {t['failed']} fail"
+        verdict = ("caught" if r["expected"] else "silent (behaviour-preserving control)") if ok else ("MISSED" if r["expected"] else "FALSE ALARM")
+        if t["build_error"] or t["failed"]:
+            verdict += " (also caught by the repo's own build/tests: not a surviving mutant)"
+        out.append(f"| {n}: {r.get('note', '')} | {r['property']} | {tests} | {', '.join(r['fired'])} | {', '.join(r['expected'])} | {verdict} |")
+    out += ["", "## Harmless (behaviour-preserving) edits: every quick check must stay silent", "", "| edit | repo tests | alarms |", "|---|---|---|"]
+    for (k, n), r in sorted(latest.items()):
+        if k != "harmless":
+            continue
+        if "error" in r:
+            out.append(f"| {n} | - | edit did not apply: {r['error'][:80]} |")
+            continue
+        t = r["repo_tests"]
+        al = "; ".join(f"{p}: {(fr or {}).get('rule')}" for p, fr in r["fired"].items()) or "none"
+        out.append(f"| {n}: {r.get('note', '')} | {t['passed']} pass / {t['failed']} fail | {al} |")
+    open(os.path.join(VERIF, "MUTANTS.md"), "w").write("\n".join(out) + "\n")
+    print("MUTANTS.md written:", sum(1 for k in latest if k[0] == "seeded"), "seeded,", sum(1 for k in latest if k[0] == "mutant"), "mutants,", sum(1 for k in latest if k[0] == "harmless"), "harmless")
+
+
 if __name__ == "__main__":
     cmd = sys.argv[1]
-    {"mutants": do_mutants, "harmless": do_harmless, "seeded": do_seeded}[cmd](sys.argv[2:])
+    {"mutants": do_mutants, "harmless": do_harmless, "seeded": do_seeded, "report": do_report}[cmd](sys.argv[2:])
